@@ -138,12 +138,12 @@ theorem history_prefix_preserved (P : Params V) (d : Doc V) (ops : List (Op V)) 
     serialisable, no promise is open, the catalog resolves and the table is within the reader's limit —
     the failed attempts leave nothing behind that could stop it — and the reload theorem applies. -/
 theorem save_retry_after_failure (P : Params V) (d0 : Doc V) (chain0) (hb : BaseOK d0 chain0) (ops : List (Op V))
-    (hops : HistOK ops) (L : Layout) (hL : L.Pos) (hsv : Savable P (run P d0 ops).1)
+    (hops : HistOK ops) (L : Layout) (hL : L.Pos) (ht : L.typed = true) (hsv : Savable P (run P d0 ops).1)
     (hsize : (run P d0 ops).1.st.refs.length + 2 ≤ MAX_ID) (c : Bool) :
     ∃ d' i dr, save P L (run P d0 ops).1 = (d', .ok i) ∧ reload d'.st c = .ok dr ∧
       ∀ id v, specRun AMap.empty ops (run P d0 ops).2 id = some v → resolve dr.st id = .val v := by
   have hi := run_inv P d0 chain0 hb ops d0 (inv_base d0 chain0 hb) hops
-  obtain ⟨d', i, hs⟩ := save_succeeds P L hL d0 _ chain0 hb hi hsv hsize
+  obtain ⟨d', i, hs⟩ := save_succeeds P L hL ht d0 _ chain0 hb hi hsv hsize
   obtain ⟨dr, h1, _, h2, _⟩ := reload_sees_saved P d0 chain0 hb ops hops L hL d' i hs c
   exact ⟨d', i, dr, hs, h1, h2⟩
 
@@ -167,10 +167,113 @@ theorem failed_save_is_clean (P : Params V) (d0 : Doc V) (chain0) (hb : BaseOK d
     | cons x xs ih => intro d m; simp only [List.cons_append, run, specRun]; exact ih _ _
   exact key ops d0 _
 
+theorem run_append (P : Params V) : ∀ (a b : List (Op V)) (d : Doc V),
+    (run P d (a ++ b)).1 = (run P (run P d a).1 b).1 := by
+  intro a
+  induction a with
+  | nil => intro b d; rfl
+  | cons x xs ih => intro b d; simp only [List.cons_append, run]; exact ih b _
+
+theorem run_save (P : Params V) (L : Layout) (d : Doc V) : (run P d [.save L]).1 = (save P L d).1 := by
+  simp only [run, step]
+  generalize save P L d = r
+  obtain ⟨d', o⟩ := r
+  cases o <;> rfl
+
+/-- **C09, a save that fails after its revision was appended** (`Trailer::from_dict` at the end of `save`: the
+    catalog — or whatever else the typed trailer loads — no longer reads back as what it must be; `write_revision`
+    had succeeded). The save is an `Err`; the caller's trailer is untouched; the backend has grown by one complete
+    revision and nothing in front of it has moved; that revision's table is the table of a completed save (every
+    pending number at its record, every untouched number as before: `ReloadFacts`); in the open document every
+    written reference still reads the last value written. -/
+theorem late_failure_keeps_revision (P : Params V) (d0 : Doc V) (chain0) (hb : BaseOK d0 chain0) (ops : List (Op V))
+    (hops : HistOK ops) (L : Layout) (hL : L.Pos) (i : SaveInfo)
+    (hc : commitInfo P L (run P d0 ops).1 = some i)
+    (hfail : ∀ i', (save P L (run P d0 ops).1).2 ≠ .ok i') :
+    (save P L (run P d0 ops).1).2 = .err ∧
+    (save P L (run P d0 ops).1).1.tr = (run P d0 ops).1.tr ∧
+    Extends (run P d0 ops).1.st (save P L (run P d0 ops).1).1.st ∧
+    (run P d0 ops).1.st.len < (save P L (run P d0 ops).1).1.st.len ∧
+    (∃ t, mergeAll (newTable (prep (run P d0 ops).1).size) ([⟨0, i.rows⟩] :: chain0) = .ok t ∧
+      ReloadFacts P d0 (run P d0 ops).1 (save P L (run P d0 ops).1).1 i t) ∧
+    (∀ id v, specRun AMap.empty ops (run P d0 ops).2 id = some v →
+      resolve (save P L (run P d0 ops).1).1.st id = .val v) := by
+  have hi := run_inv P d0 chain0 hb ops d0 (inv_base d0 chain0 hb) hops
+  have pf := prep_facts d0 _ chain0 hb hi
+  obtain ⟨hcm, htr⟩ := commitInfo_some P L d0 _ chain0 hb hi i hc
+  have htr' : (save P L (run P d0 ops).1).1.tr = (run P d0 ops).1.tr := by
+    rcases htr with h | ⟨i', h⟩
+    · exact h
+    · exact absurd h (hfail i')
+  have herr : (save P L (run P d0 ops).1).2 = .err := by
+    rcases (inv_save P L hL d0 _ chain0 hb hi).2 with ⟨i', h⟩ | h
+    · exact absurd h (hfail i')
+    · exact h
+  have hlen : (run P d0 ops).1.st.len < (save P L (run P d0 ops).1).1.st.len := by
+    obtain ⟨w, rows, hw, hr, hst, _, _⟩ := hcm
+    obtain ⟨k1, _, _, _⟩ := writeChanges_ok P L _ hL.1 _ _ _ hw pf.inv.sorted pf.inv.objs_lt
+    simp only at k1
+    rw [hst]; simp only [commit]
+    have := hL.2 (saveInfoOf (prep (run P d0 ops).1) w (w.refs.set (prep (run P d0 ops).1).xid (.raw (w.len - (prep (run P d0 ops).1).st2.start) 0)) rows)
+    have := pf.len_same
+    omega
+  refine ⟨herr, htr', ?_, hlen, reload_table_facts_c P L hL d0 _ _ chain0 i hb hi hcm htr', ?_⟩
+  · have := step_extends P (run P d0 ops).1 (.save L)
+    rw [show (step P (run P d0 ops).1 (.save L)).1 = (save P L (run P d0 ops).1).1 from by
+      have := run_save P L (run P d0 ops).1; simpa [run] using this] at this
+    exact this
+  · intro id v hw
+    have hops' : HistOK (ops ++ [.save L]) := by
+      intro op hop
+      simp only [List.mem_append, List.mem_singleton] at hop
+      rcases hop with hop | rfl
+      · exact hops op hop
+      · exact hL
+    have hclean := (failed_save_is_clean P d0 chain0 hb ops hops L hL).2
+    have := (read_your_writes P d0 chain0 hb (ops ++ [.save L]) hops' id v (by rw [hclean]; exact hw)).1
+    rw [run_append, run_save] at this
+    exact this
+
+/-- **C09, "a save that fails and is retried after the offending object is replaced", for the failure after the
+    write**: the history goes on after the late failure (`ops'`: the repair — e.g. `update` of the catalog — and
+    anything else), then a save under which the typed trailer loads again. It succeeds as soon as the document is
+    savable; the reload of its output sees every write of the whole history (before and after the failed save) at its
+    last value; and the backend of the failed save — previous revisions *and* the revision the failed save left
+    behind — is an unmodified prefix of the output. -/
+theorem save_retry_after_late_failure (P : Params V) (d0 : Doc V) (chain0) (hb : BaseOK d0 chain0) (ops : List (Op V))
+    (hops : HistOK ops) (L : Layout) (hL : L.Pos) (i : SaveInfo)
+    (_hc : commitInfo P L (run P d0 ops).1 = some i)
+    (_hfail : ∀ i', (save P L (run P d0 ops).1).2 ≠ .ok i')
+    (ops' : List (Op V)) (hops' : HistOK ops') (L' : Layout) (hL' : L'.Pos) (ht' : L'.typed = true)
+    (hsv : Savable P (run P d0 (ops ++ [.save L] ++ ops')).1)
+    (hsize : (run P d0 (ops ++ [.save L] ++ ops')).1.st.refs.length + 2 ≤ MAX_ID) (c : Bool) :
+    ∃ d' i' dr, save P L' (run P d0 (ops ++ [.save L] ++ ops')).1 = (d', .ok i') ∧ reload d'.st c = .ok dr ∧
+      (∀ id v, specRun AMap.empty (ops ++ [.save L] ++ ops') (run P d0 (ops ++ [.save L] ++ ops')).2 id = some v →
+        resolve dr.st id = .val v) ∧
+      Extends (save P L (run P d0 ops).1).1.st d'.st := by
+  have hall : HistOK (ops ++ [.save L] ++ ops') := by
+    intro op hop
+    simp only [List.mem_append, List.mem_singleton] at hop
+    rcases hop with (hop | rfl) | hop
+    · exact hops op hop
+    · exact hL
+    · exact hops' op hop
+  obtain ⟨d', i', dr, h1, h2, h3⟩ := save_retry_after_failure P d0 chain0 hb _ hall L' hL' ht' hsv hsize c
+  refine ⟨d', i', dr, h1, h2, h3, ?_⟩
+  have e1 : (run P d0 (ops ++ [.save L] ++ ops')).1 = (run P (save P L (run P d0 ops).1).1 ops').1 := by
+    rw [run_append, run_append, run_save]
+  have hx := run_extends P ops' (save P L (run P d0 ops).1).1
+  rw [← e1] at hx
+  have hy := step_extends P (run P d0 (ops ++ [.save L] ++ ops')).1 (.save L')
+  rw [show (step P (run P d0 (ops ++ [.save L] ++ ops')).1 (.save L')).1 = d' from by
+    have := run_save P L' (run P d0 (ops ++ [.save L] ++ ops')).1
+    rw [h1] at this; simpa [run] using this] at hy
+  exact hx.trans hy
+
 /-- **C09, "several saves in a row"**: from a savable document any number of saves in a row all
     succeed, as long as the table stays within the reader's limit (each save allocates at most two numbers). -/
 theorem saves_in_a_row (P : Params V) (hx : ∀ i, P.ok (P.xrefVal i) = true) (d0 : Doc V) (chain0) (hb : BaseOK d0 chain0) :
-    ∀ (Ls : List Layout), (∀ L ∈ Ls, L.Pos) → ∀ (d : Doc V), Inv d0 d → Savable P d →
+    ∀ (Ls : List Layout), (∀ L ∈ Ls, L.Pos ∧ L.typed = true) → ∀ (d : Doc V), Inv d0 d → Savable P d →
       d.st.refs.length + 2 * Ls.length ≤ MAX_ID →
       ∀ r ∈ (run P d (Ls.map Op.save)).2, ∃ i, r = Res.saved i := by
   intro Ls
@@ -179,9 +282,9 @@ theorem saves_in_a_row (P : Params V) (hx : ∀ i, P.ok (P.xrefVal i) = true) (d
   | cons L Ls ih =>
     intro hpos d hi hsv hsz r hr
     simp only [List.length_cons] at hsz
-    obtain ⟨d', i, hs⟩ := save_succeeds P L (hpos L (by simp)) d0 d chain0 hb hi hsv (by omega)
-    have hi' := inv_save_ok P L (hpos L (by simp)) d0 d d' chain0 i hb hi hs
-    have hsv' := savable_after_save P L (hpos L (by simp)) d0 d d' chain0 i hb hi hx hsv hs
+    obtain ⟨d', i, hs⟩ := save_succeeds P L (hpos L (by simp)).1 (hpos L (by simp)).2 d0 d chain0 hb hi hsv (by omega)
+    have hi' := inv_save_ok P L (hpos L (by simp)).1 d0 d d' chain0 i hb hi hs
+    have hsv' := savable_after_save P L (hpos L (by simp)).1 d0 d d' chain0 i hb hi hx hsv hs
     have hg := save_grows P L d0 d d' chain0 i hb hi hs
     simp only [List.map_cons, run, step, hs, List.mem_cons] at hr
     rcases hr with rfl | hr
@@ -200,7 +303,7 @@ def tiny : Doc Nat :=
      80, 0, 50⟩, ⟨(1, 0), none, none⟩⟩
 
 def PN : Params Nat := ⟨fun v => v != 13, fun _ => 0, fun _ _ _ => 0⟩
-def L5 : Layout := ⟨fun _ => 5, fun _ => 7, fun _ => 3⟩
+def L5 : Layout := ⟨fun _ => 5, fun _ => 7, fun _ => 3, true⟩
 
 /-- `tiny` is what loading its own bytes gives -/
 example : (match reload tiny.st true with
@@ -327,6 +430,19 @@ example : (match reload (run PN tinyFixed sampleOps).1.st false with
     | .ok d => [resolve d.st 1, resolve d.st 2, resolve d.st 3, resolve d.st 4, resolve d.st 7, resolve d.st 8]
     | _ => []) = [.val 100, .val 21, .val 31, .val 400, .val 41, .val 42] := by decide
 
+/-- a late failure and its retry: with a layout under which the typed reload of the trailer fails, the save is an
+    `Err` although its revision (3 records, section, 7 + 3 bytes of trailer) was appended; the next save — typed load
+    succeeding — succeeds, and its reload reads the writes made before and after the failed save -/
+def L5late : Layout := ⟨fun _ => 5, fun _ => 7, fun _ => 3, false⟩
+
+example : (commitInfo PN L5late (run PN tinyFixed [.update 2 21]).1).isSome = true ∧
+    ((run PN tinyFixed [.update 2 21, .save L5late, .update 3 31, .save L5]).2.map fun r => match r with
+      | .saved _ => 1 | .failed .err => 2 | .failed _ => 3 | _ => 0) = [0, 2, 0, 1] ∧
+    (run PN tinyFixed [.update 2 21]).1.st.len < (run PN tinyFixed [.update 2 21, .save L5late]).1.st.len ∧
+    (match reload (run PN tinyFixed [.update 2 21, .save L5late, .update 3 31, .save L5]).1.st false with
+      | .ok d => [resolve d.st 1, resolve d.st 2, resolve d.st 3, resolve d.st 4]
+      | _ => []) = [.val 100, .val 21, .val 31, .val 400] := by decide
+
 end Storage
 
 /-!
@@ -352,8 +468,11 @@ Explicit hypotheses (third-party or out of model):
 * sizes: the output stays below 2³¹ bytes (`fileMax`, the range of the lexer theorems), parser fuel `pfuel` at least
   three times the file length (the driver's `3·len + 64`);
 * `GoodHist`: the values written are within the limits of `C04.parse_serialize_indirect` / `parse_serialize_stream`
-  (`OKVal`), and no save of the history failed *after* appending its revision (`Trailer::from_dict` failing because
-  the catalog no longer resolves: the real backend keeps those bytes, `saveB` does not model that).
+  (`OKVal`). Nothing is asked of the saves of the history: a save may succeed, fail before anything is written
+  (truncated away), or fail *after* its revision was appended (`Trailer::from_dict`: the catalog no longer loads) — the
+  backend keeps that revision, `saveB` appends it, and the bytes keep representing the document
+  (`late_failure_keeps_revision_bytes`); whether the typed reload succeeds is the input `typed` of `OpB.save`
+  (typed readers: C15).
 -/
 
 namespace C09Bytes
@@ -368,11 +487,13 @@ variable {R : Type}
     record lengths of the abstract correspondence are a consequence of the values. -/
 theorem save_bytes_layout (fmt : R → List UInt8) (pr : List UInt8 → Option R) (d0 : Doc (Prim R)) (chain0)
     (b b' : BDoc R) (i : SaveInfo) (hb : BaseOK d0 chain0) (hi : Inv d0 b.doc) (hlen : b.bytes.length = b.doc.st.len)
-    (h : saveB fmt b = (b', .ok i)) (hbd : Bounds b.doc.tr (prep b.doc).infoRef i) : SavedBytes fmt b b' i :=
-  saveB_spec fmt pr d0 chain0 b b' i hb hi hlen h hbd
+    (typed : Bool) (h : saveB fmt typed b = (b', .ok i)) (hbd : Bounds b.doc.tr (prep b.doc).infoRef i) :
+    SavedBytes fmt typed b b' i :=
+  saveB_spec fmt pr d0 chain0 b b' i hb hi hlen typed (committedB_of_ok fmt typed b b' i h) hbd
 
 /-- **C09 at byte level, reload.** After any history of `create / update / promise / fulfil / get / resolve /
-    save` at byte level (saves that fail before writing included) on a base file given as bytes, a successful save
+    save` at byte level (saves that fail before writing, and saves that fail after their revision was appended,
+    included) on a base file given as bytes, a successful save
     produces bytes which the byte-level open path opens — header found at the same `start`, table rebuilt from the
     new cross-reference stream and the `/Prev` chain — and in which the byte-level resolver returns
     * for every written reference the last value written (streams: the dictionary written and a `file_range` that
@@ -382,8 +503,8 @@ theorem reload_sees_saved_bytes (fmt : R → List UInt8) (env : Env R) (hd : env
     (dec : Dict R → List UInt8 → Out (List UInt8)) (hdec : NoFilter dec) (b0 : BDoc R) (chain0)
     (hb : BaseOK b0.doc chain0) (hv : BaseVals fmt env.parseReal b0.doc)
     (hrep : Rep (parsers env pfuel dec) b0.bytes b0.doc.st)
-    (ops : List (OpB R)) (hgood : GoodHist fmt env.parseReal b0 ops) (b' : BDoc R) (i : SaveInfo)
-    (hs : saveB fmt (runB fmt b0 ops).1 = (b', .ok i))
+    (ops : List (OpB R)) (hgood : GoodHist fmt env.parseReal b0 ops) (b' : BDoc R) (i : SaveInfo) (typed : Bool)
+    (hs : saveB fmt typed (runB fmt b0 ops).1 = (b', .ok i))
     (hsmall : b'.bytes.length ≤ fileMax) (hpf : 3 * b'.bytes.length ≤ pfuel)
     (fuel : Nat) (hfuel : b'.doc.st.secs.length + 1 ≤ fuel) (rfuel : Nat) :
     ∃ t T, openB env pfuel dec fuel b'.bytes = .ok (b0.doc.st.start, t, T) ∧
@@ -397,22 +518,19 @@ theorem reload_sees_saved_bytes (fmt : R → List UInt8) (env : Env R) (hd : env
           ∃ o, resolveB env pfuel dec (rfuel + 2) b'.bytes b0.doc.st.start t id = .ok o ∧ Denotes b'.bytes o v) := by
   -- the invariant after the history, and after the final save
   have hmono : (runB fmt b0 ops).1.bytes.length ≤ b'.bytes.length := by
-    rcases (saveB_cases fmt _ _ _ hs).2.2 with ⟨_, _, hbts⟩ | ⟨hno, _⟩
-    · rw [hbts]; simp
-    · exact absurd rfl (hno i)
+    rw [(saveB_ok_iff fmt typed _ _ i hs).2.2]; simp
   have h1 := hinv_runB fmt env hd pfuel dec hdec b0 chain0 hb hv ops b0 (hinv_base fmt env pfuel dec b0 chain0 hb hrep)
     hgood (by omega) (by omega)
-  have hstep : stepB fmt (runB fmt b0 ops).1 .save = (b', .saved i) := by simp [stepB, hs]
-  have h2 := hinv_stepB fmt env hd pfuel dec hdec b0 (runB fmt b0 ops).1 chain0 hb hv h1 .save
-    (by intro b'' o hs' hno; rw [hs] at hs'; cases hs'; exact absurd rfl (hno i))
+  have hstep : stepB fmt (runB fmt b0 ops).1 (.save typed) = (b', .saved i) := by simp [stepB, hs]
+  have h2 := hinv_stepB fmt env hd pfuel dec hdec b0 (runB fmt b0 ops).1 chain0 hb hv h1 (.save typed) trivial
     (by rw [hstep]; exact hsmall) (by rw [hstep]; exact hpf)
   rw [hstep] at h2
   -- the abstract theorem on the lifted history
   obtain ⟨r1, r2, r3⟩ := runB_run fmt ops b0
-  obtain ⟨s1, _, _⟩ := saveB_cases fmt _ _ _ hs
+  obtain ⟨s1, _, _⟩ := saveB_ok_iff fmt typed _ _ i hs
   rw [r3, r1] at s1
   obtain ⟨dr, hrl, htr, hw, ho⟩ := reload_sees_saved (params fmt b0.ids) b0.doc chain0 hb (liftOps fmt b0 ops)
-    (liftOps_ok fmt ops b0) (layoutOf fmt (runB fmt b0 ops).1) (layoutOf_pos fmt _) b'.doc i s1 false
+    (liftOps_ok fmt ops b0) (layoutOf fmt typed (runB fmt b0 ops).1) (layoutOf_pos fmt _ _) b'.doc i s1 false
   rw [← r2] at hw ho
   -- the bridge
   obtain ⟨T, hopen, hroot⟩ := open_of_rep (parsers env pfuel dec) b'.bytes b'.doc.st h2.rep false dr hrl fuel hfuel
@@ -441,20 +559,19 @@ theorem reload_sees_saved_bytes (fmt : R → List UInt8) (env : Env R) (hd : env
 theorem reload_sees_pending_bytes (fmt : R → List UInt8) (env : Env R) (hd : env.decrypt = none) (pfuel : Nat)
     (dec : Dict R → List UInt8 → Out (List UInt8)) (hdec : NoFilter dec) (b0 b : BDoc R) (chain0)
     (hb : BaseOK b0.doc chain0) (hv : BaseVals fmt env.parseReal b0.doc) (h1 : HInv fmt env pfuel dec b0 b)
-    (b' : BDoc R) (i : SaveInfo) (hs : saveB fmt b = (b', .ok i))
+    (b' : BDoc R) (i : SaveInfo) (typed : Bool) (hs : saveB fmt typed b = (b', .ok i))
     (hsmall : b'.bytes.length ≤ fileMax) (hpf : 3 * b'.bytes.length ≤ pfuel)
     (fuel : Nat) (hfuel : b'.doc.st.secs.length + 1 ≤ fuel) (rfuel : Nat) :
     ∃ t T, openB env pfuel dec fuel b'.bytes = .ok (b0.doc.st.start, t, T) ∧ t.length = i.size + 1 ∧
       dictGet T SaveBytes.kRoot = some (.ref b0.doc.tr.root.1 b0.doc.tr.root.2) ∧
       (∀ id v g, chLookup (prep b.doc).st2.changes id = some (v, g) →
         ∃ o, resolveB env pfuel dec (rfuel + 2) b'.bytes b0.doc.st.start t id = .ok o ∧ Denotes b'.bytes o v) := by
-  have hstep : stepB fmt b .save = (b', .saved i) := by simp [stepB, hs]
-  have h2 := hinv_stepB fmt env hd pfuel dec hdec b0 b chain0 hb hv h1 .save
-    (by intro b'' o hs' hno; rw [hs] at hs'; cases hs'; exact absurd rfl (hno i))
+  have hstep : stepB fmt b (.save typed) = (b', .saved i) := by simp [stepB, hs]
+  have h2 := hinv_stepB fmt env hd pfuel dec hdec b0 b chain0 hb hv h1 (.save typed) trivial
     (by rw [hstep]; exact hsmall) (by rw [hstep]; exact hpf)
   rw [hstep] at h2
-  obtain ⟨s1, _, _⟩ := saveB_cases fmt _ _ _ hs
-  obtain ⟨t, hrl, facts⟩ := reload_after_save _ _ (layoutOf_pos fmt b) b0.doc b.doc b'.doc chain0 i hb h1.inv s1 false
+  obtain ⟨s1, _, _⟩ := saveB_ok_iff fmt typed _ _ i hs
+  obtain ⟨t, hrl, facts⟩ := reload_after_save _ _ (layoutOf_pos fmt typed b) b0.doc b.doc b'.doc chain0 i hb h1.inv s1 false
   obtain ⟨T, hopen, hroot⟩ := open_of_rep (parsers env pfuel dec) b'.bytes b'.doc.st h2.rep false _ hrl fuel hfuel
   have hst : b'.doc.st.start = b0.doc.st.start := h2.inv.start_eq
   rw [hst] at hopen
@@ -466,5 +583,39 @@ theorem reload_sees_pending_bytes (fmt : R → List UInt8) (env : Env R) (hd : e
   have := facts.pending id v g hc false
   have := resolve_of_rep (parsers env pfuel dec) b'.bytes b'.doc.st h2.rep t false id v this rfuel
   rw [hst] at this; exact this
+
+/-- **C09 at byte level, a save whose revision was written** — successful or failing afterwards in the typed reload of
+    the trailer (`typed = false`, or the root no longer resolving): the bytes grow by exactly that revision, every
+    record of it lies where its cross-reference row says (`SavedBytes`), and the bytes keep representing the state of
+    the open document (`HInv`), so that the history can go on — repair, retry — and `reload_sees_saved_bytes` applies to
+    the final successful save with the failed revision in between. -/
+theorem late_failure_keeps_revision_bytes (fmt : R → List UInt8) (env : Env R) (hd : env.decrypt = none) (pfuel : Nat)
+    (dec : Dict R → List UInt8 → Out (List UInt8)) (hdec : NoFilter dec) (b0 b : BDoc R) (chain0)
+    (hb : BaseOK b0.doc chain0) (hv : BaseVals fmt env.parseReal b0.doc) (h1 : HInv fmt env pfuel dec b0 b)
+    (typed : Bool) (i : SaveInfo)
+    (hc : commitInfo (params fmt b.ids) (layoutOf fmt typed b) b.doc = some i)
+    (hsmall : (saveB fmt typed b).1.bytes.length ≤ fileMax) (hpf : 3 * (saveB fmt typed b).1.bytes.length ≤ pfuel) :
+    (saveB fmt typed b).1.bytes = b.bytes ++ revisionBytes fmt b i ∧
+    SavedBytes fmt typed b (saveB fmt typed b).1 i ∧
+    HInv fmt env pfuel dec b0 (saveB fmt typed b).1 := by
+  generalize hs : saveB fmt typed b = res at hsmall hpf ⊢
+  obtain ⟨b', o⟩ := res
+  have hstep : (stepB fmt b (.save typed)).1 = b' := by simp only [stepB, hs]; cases o <;> rfl
+  have h2 := hinv_stepB fmt env hd pfuel dec hdec b0 b chain0 hb hv h1 (.save typed) trivial
+    (by rw [hstep]; exact hsmall) (by rw [hstep]; exact hpf)
+  rw [hstep] at h2
+  obtain ⟨e1, e2, e3⟩ := saveB_cases fmt typed b b' o hs
+  have hbytes : b'.bytes = b.bytes ++ revisionBytes fmt b i := by
+    rcases e3 with ⟨i', hi', hb'⟩ | ⟨hn, _⟩
+    · rw [hc] at hi'; cases hi'; exact hb'
+    · rw [hc] at hn; cases hn
+  obtain ⟨hcm, _⟩ := commitInfo_some _ _ b0.doc b.doc chain0 hb h1.inv i hc
+  rw [e1] at hcm
+  have hcb : CommittedB fmt typed b b' i := ⟨hcm, e2, hbytes⟩
+  have bk := saveB_backend fmt b0.doc chain0 b b' i hb h1.inv h1.rep.len typed hcb
+  have htr : b'.doc.tr = b.doc.tr := by rw [h2.inv.tr_eq, h1.inv.tr_eq]
+  have hbd := bounds_of_save fmt env.parseReal _ _ (layoutOf_pos fmt typed b) b0.doc b.doc b'.doc chain0 i hb h1.inv hcm htr hv
+    (by have := bk.xpos_le; simp only at hsmall; omega)
+  exact ⟨hbytes, saveB_spec fmt env.parseReal b0.doc chain0 b b' i hb h1.inv h1.rep.len typed hcb hbd, h2⟩
 
 end C09Bytes
